@@ -32,6 +32,7 @@ import (
 	"path/filepath"
 	"sort"
 	"strings"
+	"time"
 
 	"golang.org/x/tools/go/packages"
 )
@@ -90,7 +91,23 @@ func main() {
 		Tests: false,
 		Env:   env,
 	}
-	pkgs, err := packages.Load(cfg, "./...")
+	// the working tree may be in the middle of a commit / another go command may hold the module cache: a load that
+	// fails or reports package errors is retried before it counts as "the tie is broken"
+	var pkgs []*packages.Package
+	var err error
+	for attempt := 0; attempt < 4; attempt++ {
+		pkgs, err = packages.Load(cfg, "./...")
+		bad := err != nil
+		for _, p := range pkgs {
+			if len(p.Errors) > 0 {
+				bad = true
+			}
+		}
+		if !bad {
+			break
+		}
+		time.Sleep(time.Duration(3*(attempt+1)) * time.Second)
+	}
 	if err != nil {
 		fatal("load: %v", err)
 	}
